@@ -208,6 +208,9 @@ func (f *flush) addBaseTimer(name string, timer gostatsd.Timer) {
 }
 
 func (f *flush) addHistogramTimer(name string, timer gostatsd.Timer) {
+	if len(timer.Histogram) == 0 {
+		return
+	}
 	writeName(f.writer, name, timer.Tags)
 
 	var sb strings.Builder
